@@ -5,6 +5,7 @@ import Pyxv.Model.Controls
 import Pyxv.Model.Choices
 import Pyxv.Model.Settings
 import Pyxv.Model.Lexer
+import Pyxv.Model.RefsText
 import Pyxv.Model.Assemble
 import Pyxv.Model.Xml
 /-!
@@ -71,21 +72,25 @@ deriving Repr, Inhabited, DecidableEq
 
 def canonKey (toks : List Str) : Str := joinWith (l!"::") toks
 
-/-- one raw row → canonical cells (`bind::relevant`, `control::appearance`, …), cleaned -/
-def canonRow (key : List (Str × List Str)) : Cells → Except String Cells
+/-- one raw row → canonical cells (`bind::relevant`, `control::appearance`, …), cleaned; every cell passes
+    `validate_pyxform_reference_syntax` (`Lexer.refSyntaxOk`) or the form is rejected -/
+def canonRow (key : List (Str × List Str)) : Cells → Except Err Cells
   | [] => .ok []
   | (h, v) :: rest =>
     let v' := Binds.cleanCell v
-    if v'.isEmpty then .error "whitespace-only cell" else
-    if !Binds.refsSimple none v' then .error "reference shape" else
+    if v'.isEmpty then .error (.unsupported "whitespace-only cell") else
+    match Lexer.refSyntaxOk v' with
+    | none => .error (.unsupported "lexer rule table is not the pinned one")
+    | some false => .error (.rejected "reference syntax")
+    | some true =>
     match lookup h key with
-    | none => .error "cell under a column that is not in the header row"
+    | none => .error (.unsupported "cell under a column that is not in the header row")
     | some toks =>
       match canonRow key rest with
       | .ok r => .ok ((canonKey toks, v') :: r)
       | .error e => .error e
 
-def canonRows (key : List (Str × List Str)) : List Cells → Except String (List Cells)
+def canonRows (key : List (Str × List Str)) : List Cells → Except Err (List Cells)
   | [] => .ok []
   | r :: rs =>
     match canonRow key r with
@@ -340,37 +345,95 @@ def ntKids : NT → List NT
 
 /-! ## 6. binds -/
 
-/-- `xml_bindings` of the element at `path` -/
-def bindAttrs (root : Str) (tops : List Str) (path : List Str) (q : Binds.Q) : Option (List (Str × Str)) :=
-  match Binds.xmlBind root tops { path, q } with
-  | some (some b) =>
-    -- `setAttribute` evicts an attribute of the same local name: `x:nodeset` would remove `nodeset` (outside the fragment)
-    if b.attrs.all (fun kv => Asm.attrLocal kv.1 != l!"nodeset") then some b.attrs else none
-  | _ => none
+def kindOf : Ctl → Refs.Kind
+  | .rep => .rep
+  | _ => .group
 
-def bindNode (root : Str) (tops : List Str) (path : List Str) (q : Binds.Q) : Node :=
-  Asm.pyNode (l!"bind") ((l!"nodeset", xpathStr path) :: (bindAttrs root tops path q).getD []) []
+mutual
+/-- the element tree `Pyxv.Refs` reasons about (`iter_descendants` order, kinds) -/
+def toEl : DItem → Refs.El
+  | .q d _ => .mk .q d.name []
+  | .sec ct n _ _ ks => .mk (kindOf ct) n (toElL ks)
+def toElL : List DItem → List Refs.El
+  | [] => []
+  | k :: ks => toEl k :: toElL ks
+end
+
+/-- chains of all elements of the survey, root first (`_setup_xpath_dictionary`, `is_parent_a_repeat`) -/
+def elsOf (root : Str) (dall : List DItem) : List Refs.Chain := (Refs.El.mk .group root (toElL dall)).chains []
+
+/-- texts whose references need the lexer-level flags of `Refs.Flags` or the last-saved instance -/
+def refUnsupported (s : Str) : Bool :=
+  isInfix (l!"indexed-repeat(") s || isInfix (l!"instance(") s || isInfix (l!"${last-saved#") s
+
+/-- the element's bind dict (`Question.__init__` merge); `none`: no dict, or a `nodeset` entry -/
+def bindDict (q : Binds.Q) : Option Binds.BindDict :=
+  match Binds.elemBind q with
+  | some b => if (lookup (l!"nodeset") b).isSome then none else some b
+  | none => none
+
+/-- `xml_bindings`: value conversions, then `insert_xpaths(v, context=self)` through `Refs.refFor` -/
+def attrsOfR (els : List Refs.Chain) (ctx : Refs.Chain) (path : Str) : Binds.BindDict → Option (List (Str × Str))
+  | [] => some []
+  | (k, v) :: rest =>
+    match Binds.convVal path k v with
+    | none => none
+    | some s =>
+      match Refs.insertXpaths els (some ctx) {} s, attrsOfR els ctx path rest with
+      | some s', some r => some ((k, s') :: r)
+      | _, _ => none
+
+/-- the bind is inside the fragment (whether its references resolve is `bindAttrs`) -/
+def bindSupported (ctx : Refs.Chain) (q : Binds.Q) : Bool :=
+  match bindDict q with
+  | none => false
+  | some b =>
+    b.all fun kv =>
+      Asm.attrLocal kv.1 != l!"nodeset" &&
+      (match Binds.convVal ctx.xpath kv.1 kv.2 with | some s => !refUnsupported s | none => false)
+
+/-- `xml_bindings` of the element with chain `ctx` -/
+def bindAttrs (els : List Refs.Chain) (ctx : Refs.Chain) (q : Binds.Q) : Option (List (Str × Str)) :=
+  match (bindDict q).bind (attrsOfR els ctx ctx.xpath) with
+  | some a =>
+    -- `setAttribute` evicts an attribute of the same local name: `x:nodeset` would remove `nodeset` (outside the fragment)
+    if a.all (fun kv => Asm.attrLocal kv.1 != l!"nodeset") then some a else none
+  | none => none
+
+def bindNode (els : List Refs.Chain) (ctx : Refs.Chain) (q : Binds.Q) : Node :=
+  Asm.pyNode (l!"bind") ((l!"nodeset", xpathStr ctx.path) :: (bindAttrs els ctx q).getD []) []
 
 mutual
 /-- `xml_descendent_bindings`: one `<bind>` per element that has a bind dict, document order -/
-def bindNodes (root : Str) (tops : List Str) (pre : List Str) : DItem → List Node
-  | .q d p => if d.bind then [bindNode root tops (pre ++ [d.name]) p.bq] else []
-  | .sec _ n b p ks =>
-    (if b then [bindNode root tops (pre ++ [n]) p.bq] else []) ++ bindNodesL root tops (pre ++ [n]) ks
-def bindNodesL (root : Str) (tops : List Str) (pre : List Str) : List DItem → List Node
+def bindNodes (els : List Refs.Chain) (pc : Refs.Chain) : DItem → List Node
+  | .q d p => if d.bind then [bindNode els (pc ++ [(d.name, .q)]) p.bq] else []
+  | .sec ct n b p ks =>
+    (if b then [bindNode els (pc ++ [(n, kindOf ct)]) p.bq] else []) ++ bindNodesL els (pc ++ [(n, kindOf ct)]) ks
+def bindNodesL (els : List Refs.Chain) (pc : Refs.Chain) : List DItem → List Node
   | [] => []
-  | k :: ks => bindNodes root tops pre k ++ bindNodesL root tops pre ks
+  | k :: ks => bindNodes els pc k ++ bindNodesL els pc ks
 end
 
 mutual
-/-- every bind the walk emits has attributes inside the `Binds` fragment -/
-def bindsOk (root : Str) (tops : List Str) (pre : List Str) : DItem → Bool
-  | .q d p => !d.bind || (bindAttrs root tops (pre ++ [d.name]) p.bq).isSome
-  | .sec _ n b p ks =>
-    (!b || (bindAttrs root tops (pre ++ [n]) p.bq).isSome) && bindsOkL root tops (pre ++ [n]) ks
-def bindsOkL (root : Str) (tops : List Str) (pre : List Str) : List DItem → Bool
+/-- every bind the walk emits is inside the fragment -/
+def bindsSup (pc : Refs.Chain) : DItem → Bool
+  | .q d p => !d.bind || bindSupported (pc ++ [(d.name, .q)]) p.bq
+  | .sec ct n b p ks =>
+    (!b || bindSupported (pc ++ [(n, kindOf ct)]) p.bq) && bindsSupL (pc ++ [(n, kindOf ct)]) ks
+def bindsSupL (pc : Refs.Chain) : List DItem → Bool
   | [] => true
-  | k :: ks => bindsOk root tops pre k && bindsOkL root tops pre ks
+  | k :: ks => bindsSup pc k && bindsSupL pc ks
+end
+
+mutual
+/-- every reference of every bind resolves (otherwise pyxform raises) -/
+def bindsOk (els : List Refs.Chain) (pc : Refs.Chain) : DItem → Bool
+  | .q d p => !d.bind || (bindAttrs els (pc ++ [(d.name, .q)]) p.bq).isSome
+  | .sec ct n b p ks =>
+    (!b || (bindAttrs els (pc ++ [(n, kindOf ct)]) p.bq).isSome) && bindsOkL els (pc ++ [(n, kindOf ct)]) ks
+def bindsOkL (els : List Refs.Chain) (pc : Refs.Chain) : List DItem → Bool
+  | [] => true
+  | k :: ks => bindsOk els pc k && bindsOkL els pc ks
 end
 
 /-! ## 7. body -/
@@ -501,7 +564,7 @@ def convertDoc (wb : Workbook) : Except Err Node :=
   | .error (.unsupported w) => .error (.unsupported w)
   | .ok key =>
   match canonRows key wb.survey with
-  | .error w => .error (.unsupported w)
+  | .error e => .error e
   | .ok rows =>
   -- per-row classification and decoration
   match decorateAll listNames 2 rows with
@@ -520,16 +583,16 @@ def convertDoc (wb : Workbook) : Except Err Node :=
   | .error _ => .error (.unsupported "decorated tree (unreachable)")
   | .ok ditems =>
   let dall := dWithMeta root rows ditems
-  let names := (dNamesL dall).map lowerAscii
-  if !(decide names.Nodup) || names.contains (lowerAscii root) then .error (.unsupported "names not unique") else
   if metaKids rows [] ≠ [({ name := l!"instanceID", bind := true, control := false, node := true } : QData)] then
     .error (.unsupported "meta block") else
-  let tops := topNames ditems
-  if !bindsOkL root tops [root] dall then .error (.unsupported "reference or bind value outside the fragment") else
+  let els := elsOf root dall
+  let rc : Refs.Chain := [(root, .group)]
+  if !bindsSupL rc dall then .error (.unsupported "bind value outside the fragment") else
+  if !bindsOkL els rc dall then .error (.rejected "reference") else
   if !ctlOkL ditems then .error (.unsupported "control attribute with the local name ref / nodeset") else
   let rootKids := instNodes (defaultsOfL [root] ditems) [root] (ntKids o.inst)
   let insts := (Choices.staticInsts [] lists).map Choices.instNode
-  let binds := bindNodesL root tops [root] dall
+  let binds := bindNodesL els rc dall
   let body := bodyNodesL [root] ditems
   let doc := Asm.assemble f none rootKids (insts ++ binds) body
   if Asm.validDoc [] doc then .ok doc else .error (.rejected "validate_xml_document")
